@@ -58,6 +58,9 @@ impl StepOracle for C07Oracle {
             Call::Raw { contract, .. } => {
                 allowed.insert(contract.clone());
             }
+            Call::Migrate { contract, .. } => {
+                allowed.insert(contract.clone());
+            }
         }
         match cx.intent {
             Intent::Provide { receiver: r, .. } => receiver = Some(r.clone()),
